@@ -1,16 +1,91 @@
-(* props/C08.v — placeholder while the proofs are being closed: refutation witnesses of the
-   pinned behaviours (kept as regression documentation). *)
-From Coq Require Import List NArith ZArith.
+(* props/C08.v — a range expression denotes exactly the integers it spells out.
+   All theorems are about the flag-off instance of the model (= the code in /repo now), at
+   token level, for ALL token lists; the lexer is shared (Lexer.v) and enters only C08_errors.
+   Accepts ts es  :=  Renders es ts /\ Forall elem_ok es /\ Pairwise disjoint (map span es)
+   (RangeExprSpec.v: the grammar, the validity of each written element, pairwise disjoint spans). *)
+From Coq Require Import List NArith ZArith Permutation.
 Import ListNotations.
-Require Import OJD.Base OJD.Lexer OJD.RangeExpr OJD.RangeExprSpec.
+Require Import OJD.Base OJD.Lexer OJD.RangeExpr OJD.RangeExprSpec OJD.RangeExprProofs.
 Local Open Scope Z_scope.
 
 (* "1-10:2,12-20:2" *)
 Definition w1 : list tok :=
   [TPosInt 1; THyphen; TPosInt 10; TColon; TPosInt 2; TComma; TPosInt 12; THyphen; TPosInt 20; TColon; TPosInt 2].
+(* "5-3" *)
+Definition w2 : list tok := [TPosInt 5; THyphen; TPosInt 3].
+(* "10-1:-3,0" *)
+Definition w3 : list tok :=
+  [TPosInt 10; THyphen; TPosInt 1; TColon; THyphen; TPosInt 3; TComma; TPosInt 0].
 
+(* accepted  <->  grammar /\ every element valid /\ spans pairwise disjoint *)
+Theorem C08_accept_iff :
+  forall ts, (exists e, parse_tokens false false ts = Ok e) <-> (exists es, Accepts ts es).
+Proof. exact accept_iff. Qed.
+Print Assumptions C08_accept_iff.
+
+Example C08_accept_iff_nonvacuous :
+  (exists e, parse_tokens false false w1 = Ok e) /\ (exists es, Accepts w3 es) /\
+  ~ (exists e, parse_tokens false false w2 = Ok e).
+Proof.
+  split; [eexists; vm_compute; reflexivity|]. split.
+  - assert (H : spec_from_tokens w3 = Some [0; 1; 4; 7; 10]) by (vm_compute; reflexivity).
+    apply spec_from_tokens_iff in H. destruct H as (es & H & _). exists es; exact H.
+  - intros (e & H). vm_compute in H. discriminate H.
+Qed.
+
+(* the written elements are determined by the token list, so "es" below is THE list written *)
+Theorem C08_written_elements_unique :
+  forall ts es es', Renders es ts -> Renders es' ts -> es = es'.
+Proof. exact Renders_functional. Qed.
+Print Assumptions C08_written_elements_unique.
+
+(* an accepted expression contains exactly the union of the written progressions, every value once *)
+Theorem C08_denotation :
+  forall ts e es, parse_tokens false false ts = Ok e -> Accepts ts es ->
+    Permutation (elems e) (concat (map denote es)) /\ NoDup (elems e).
+Proof. exact denotation. Qed.
+Print Assumptions C08_denotation.
+
+Example C08_denotation_nonvacuous :
+  exists e es, parse_tokens false false w1 = Ok e /\ Accepts w1 es /\
+               elems e = [1; 3; 5; 7; 9; 12; 14; 16; 18; 20].
+Proof.
+  assert (H : spec_from_tokens w1 = Some [1; 3; 5; 7; 9; 12; 14; 16; 18; 20]) by (vm_compute; reflexivity).
+  apply spec_from_tokens_iff in H. destruct H as (es & H & _).
+  eexists. exists es. split; [vm_compute; reflexivity|]. split; [exact H|]. vm_compute. reflexivity.
+Qed.
+
+(* every rejection — lexer included — is in the ExpressionError family: never ValueError,
+   IndexError (empty constructor argument) or RuntimeError (fuel of the model's loop) *)
+Theorem C08_errors :
+  forall cls s e, from_str false false cls s = Raise e -> is_expression_error e = true.
+Proof. exact errors. Qed.
+Print Assumptions C08_errors.
+
+Example C08_errors_nonvacuous :
+  from_str false false ascii_class [53; 45; 51]%N = Raise ExpressionError /\     (* "5-3" *)
+  from_str false false ascii_class [49; 120]%N = Raise TokenError /\             (* "1x"  *)
+  from_str false false ascii_class [49; 45; 51; 44; 51]%N = Raise ExpressionError. (* "1-3,3" *)
+Proof. repeat split; vm_compute; reflexivity. Qed.
+
+(* the executable oracle used by the harness on a disagreement is the declarative spec *)
+Theorem C08_oracle :
+  forall ts l, spec_from_tokens ts = Some l <->
+               exists es, Accepts ts es /\ l = sortZ (concat (map denote es)).
+Proof. exact spec_from_tokens_iff. Qed.
+Print Assumptions C08_oracle.
+
+(* ---- regression documentation: the pinned (pre-fix) behaviours violate the property ---- *)
+
+(* defect #1 (fixed by e6dc5aa): merge tested the written end *)
 Theorem C08_pinned_merge_refuted :
   exists ts l l', spec_from_tokens ts = Some l /\
     option_map (fun e => elems e) (match parse_tokens true false ts with Ok e => Some e | _ => None end) = Some l' /\ l <> l'.
 Proof. exists w1. eexists. eexists. split; [vm_compute; reflexivity|]. split; [vm_compute; reflexivity|]. discriminate. Qed.
 Print Assumptions C08_pinned_merge_refuted.
+
+(* defect #2 (fixed by 768b936): IntRange(a, b, 1) built outside the try: "5-3" -> bare ValueError *)
+Theorem C08_pinned_try_refuted :
+  exists s e, from_str false true ascii_class s = Raise e /\ is_expression_error e = false.
+Proof. exists [53; 45; 51]%N, ValueError. split; vm_compute; reflexivity. Qed.
+Print Assumptions C08_pinned_try_refuted.
